@@ -1409,11 +1409,20 @@ ws_http_cb_dialer(nni_ws *ws, nni_aio *aio)
 		}
 	}
 
-	// At this point, we are in business!
-	nni_list_remove(&d->wspend, ws);
-	ws->ready   = true;
+	// At this point, we are in business!  (Unless the dial was
+	// canceled in the meantime: ws_dial_cancel claims the user aio
+	// under ws->mtx.)
+	nni_mtx_lock(&ws->mtx);
+	uaio        = ws->useraio;
 	ws->useraio = NULL;
-	ws->dialer  = NULL;
+	nni_mtx_unlock(&ws->mtx);
+	if (uaio == NULL) {
+		rv = NNG_ECANCELED;
+		goto err;
+	}
+	nni_list_remove(&d->wspend, ws);
+	ws->ready  = true;
+	ws->dialer = NULL;
 	nni_aio_set_output(uaio, 0, ws);
 	nni_aio_finish(uaio, 0, 0);
 	if (nni_list_empty(&d->wspend)) {
@@ -1423,8 +1432,13 @@ ws_http_cb_dialer(nni_ws *ws, nni_aio *aio)
 	return;
 err:
 	nni_list_remove(&d->wspend, ws);
+	// Whoever takes the user aio out of ws->useraio (under ws->mtx)
+	// completes it: here, or ws_dial_cancel, never both.
+	nni_mtx_lock(&ws->mtx);
+	uaio        = ws->useraio;
 	ws->useraio = NULL;
-	ws->dialer  = NULL;
+	nni_mtx_unlock(&ws->mtx);
+	ws->dialer = NULL;
 	if (nni_list_empty(&d->wspend)) {
 		nni_cv_wake(&d->cv);
 	}
